@@ -640,3 +640,95 @@ Print Assumptions C13_step_refines_model_facts.
 Print Assumptions C13_step_refines_reachable_model_facts.
 Print Assumptions C13_step_refines_strings.
 Print Assumptions C13_step_refines_reachable_strings.
+
+(** ** [Element::normalize] (D66: it was [todo!()], every call panicked; repaired by 371cd5b)
+
+    Model: Model/DomNormalize.v -- a derived program over [step] ([append_data] on the Text node in front,
+    [remove_child] on the element, recursion into child elements), tied to the code by the op [NZ] of the dom
+    correspondence (both views).  DOM Level 1: "Puts all Text nodes in the full depth of the sub-tree underneath
+    this Element into a normal form where only markup separates Text nodes, i.e., there are no adjacent Text nodes."
+
+    Proved here: no panic (the call itself and every call it is made of, any world), no failure, atomicity of failed
+    calls in histories with [normalize] calls, [Inv2] along such histories, and the frame
+    [C13_normalize_frame_partial] (part (i) of the functional specification).
+
+    FULL functional specification (stated, not all proved):
+      (i)   non-Text nodes of the subtree and everything outside the subtree are unchanged (kinds, names, order,
+            attributes)  -- PROVED in the form [NF] for EVERY node of every document: static fields, data and parent
+            of non-Text nodes, child lists of non-Elements are unchanged, child lists of Elements lose Text nodes only.
+            MISSING: that Text nodes / Element child lists OUTSIDE the subtree of the receiver are untouched (needs a
+            descendant relation and its stability under the edits).
+      (ii)  for every element of the subtree the concatenation of the data of each maximal run of adjacent Text
+            children is unchanged  -- NOT PROVED (needs the loop invariant "previous is the child directly in front");
+            checked on every NZ call of the campaign by the python oracle [spec_normalize] of checks/dom13.py.
+      (iii) afterwards two Text children of an element of the subtree are adjacent only if their concatenation is
+            not storable ([valid_str KTx] fails)  -- NOT PROVED; checked by the same oracle.
+      (iv)  idempotence  -- NOT PROVED; the generator calls normalize twice in a row (evidence: nothing-to-merge). *)
+From XmlRs Require Import Model.DomNormalize Proofs.DomNormalizeHist Proofs.DomNormalizeC12 Proofs.DomNormalizeC13
+  Proofs.DomNormalizeFrame.
+
+Theorem C13_normalize_no_panic : forall merged w r,
+  snd (normalize merged w r) <> Panicked
+  /\ exists ops, fst (normalize merged w r) = run w ops
+       /\ forall pre o post, ops = pre ++ o :: post -> snd (step (run w pre) o) <> Panicked.
+Proof. exact normalize_no_panic. Qed.
+
+Theorem C13_normalize_never_fails : forall merged w r e, snd (normalize merged w r) <> Failed e.
+Proof. exact normalize_never_fails. Qed.
+
+Theorem C13_normalize_applicable : forall merged w r,
+  snd (normalize merged w r) = DomOps.Ok RUnit <-> kind_in w r = Some KEl.
+Proof. exact normalize_applicable. Qed.
+
+Theorem C13_run_n_no_panic : forall nops w, forallb (fun o => negb (Known42 o)) (plain_ops nops) = true ->
+  forall pre o post, nops = pre ++ o :: post -> snd (step_n (run_n w pre) o) <> Panicked.
+Proof. exact run_n_no_panic. Qed.
+
+Theorem C13_failure_atomic_reachable_with_normalize : forall init nops o e,
+  WInv init -> match o with Op p => is_set_attribute p = false | Normalize _ _ => True end ->
+  snd (step_n (run_n init nops) o) = Failed e -> fst (step_n (run_n init nops) o) = run_n init nops.
+Proof. exact failure_atomic_reachable_with_normalize. Qed.
+
+Theorem C13_normalize_refused_append_atomic : forall w p d e,
+  WInv w -> snd (step w (AppendData p d)) = Failed e -> fst (step w (AppendData p d)) = w.
+Proof. exact normalize_refused_append_atomic. Qed.
+
+Theorem C13_inv2_reachable_with_normalize : forall init nops, WInv2 init -> WInv2 (run_n init nops).
+Proof. exact inv2_reachable_with_normalize. Qed.
+
+(** part (i) of the functional specification (see the header of this section for what is missing) *)
+Theorem C13_normalize_frame_partial : forall merged w r k s, doc_at w k = Some s ->
+  exists s', doc_at (fst (normalize merged w r)) k = Some s' /\ NF s s'.
+Proof. exact normalize_frame. Qed.
+
+(** what [NF] says, field by field *)
+Theorem C13_normalize_frame_items : forall s s', NF s s' ->
+  next s' = next s /\ sroot s' = sroot s /\ sdecl s' = sdecl s
+  /\ (forall i, get s i = None -> get s' i = None)
+  /\ (forall i a, get s i = Some a -> exists b, get s' i = Some b
+        /\ ikind b = ikind a /\ iprefix b = iprefix a /\ ilocal b = ilocal a /\ iflag b = iflag a
+        /\ iattrs b = iattrs a /\ ients b = ients a
+        /\ (ikind a <> KTx -> idata b = idata a /\ iparent b = iparent a)
+        /\ (ikind a = KTx -> iparent b = iparent a \/ iparent b = None)
+        /\ (ikind a <> KEl -> ichildren b = ichildren a)
+        /\ filter (nontext s) (ichildren b) = filter (nontext s) (ichildren a)
+        /\ incl (ichildren b) (ichildren a)).
+Proof. exact NF_items. Qed.
+
+(** the example of [C12_normalize_example] is a non-trivial instance: two Text nodes are merged away, one pair stays apart *)
+Example C13_normalize_example :
+  snd (step_n nz_before (Normalize false (0, 2))) = DomOps.Ok RUnit
+  /\ snd (step_n nz_before (Normalize false (0, 6))) = NotApplicable
+  /\ valid_str KTx (data_of (store0 nz_final) 6 ++ data_of (store0 nz_final) 10) = false.
+Proof. exact nz_example13. Qed.
+
+Print Assumptions C13_normalize_no_panic.
+Print Assumptions C13_normalize_never_fails.
+Print Assumptions C13_normalize_applicable.
+Print Assumptions C13_run_n_no_panic.
+Print Assumptions C13_failure_atomic_reachable_with_normalize.
+Print Assumptions C13_normalize_refused_append_atomic.
+Print Assumptions C13_inv2_reachable_with_normalize.
+Print Assumptions C13_normalize_frame_partial.
+Print Assumptions C13_normalize_frame_items.
+Print Assumptions C13_normalize_example.
